@@ -355,7 +355,7 @@ public:
             suitabilities.push_back(suitability);
             total_suitability_score += suitability;
         }
-        if (total_suitability_score <= 0) {
+        if (!(total_suitability_score > 0)) {
             // While the score should always be >= 0, it may be == 0 if no hosts (host
             // individuals) are present. No hosts present cause all suitabilities to be
             // zero which is not permissible for the host picking later and it is enough
